@@ -35,7 +35,9 @@ use serde_json::{Value, json};
 
 use p3_challenger::{CanObserve, CanSample, CanSampleBits, FieldChallenger, GrindingChallenger};
 use super::{EvLog, InstStatic, ShapeParams, shape_line};
-use super::{AddAir, Circ, DemoAir, MulAir, Native, RunFn, Target, add_trace, panic_msg, variant};
+use super::{AddAir, Circ, DemoAir, MulAir, Native, RunFn, Target, add_trace, bus_trace, panic_msg, perm_trace, table_trace, variant, variant2};
+use super::forge_prover::{Forge, forge_prove_batch};
+use super::forge_prover::uni::forge_prove_uni;
 
 type RecVal = RecValMmcs<F, DIGEST_ELEMS, MyHash, MyCompress>;
 type InputProof = InputProofTargets<F, Challenge, RecVal>;
@@ -320,7 +322,56 @@ macro_rules! uni_target {
                 }) as RunFn)
             })
         };
-        Target { name, honest, native, build, include: Box::new(|_| true), shape, transcript, pow_bits: (spec.0, spec.1) }
+        // prover-side forgeries (see the batch targets): altered trace cell / public value / quotient value
+        let (t_len, n_pis) = {
+            let t = $trace;
+            (t.values.len(), pis.len())
+        };
+        let forge_ids = super::forge_ids(&[t_len], &[n_pis], &[0]);
+        let forge_fn = {
+            let pis = pis.clone();
+            move |id: &str| -> Result<Value, String> {
+                let spec = super::ForgeSpec::parse(id).ok_or_else(|| format!("bad forgery id {id}"))?;
+                let mut trace = $trace;
+                let mut pis = pis.clone();
+                let mut quot = None;
+                match spec {
+                    super::ForgeSpec::None => {}
+                    super::ForgeSpec::Trace(0, cell, delta) => {
+                        let n = trace.values.len();
+                        trace.values[cell % n] += F::from_u64(delta);
+                    }
+                    super::ForgeSpec::Pv(0, k) => {
+                        let n = pis.len().max(1);
+                        if let Some(x) = pis.get_mut(k % n) {
+                            *x += F::ONE;
+                        }
+                    }
+                    super::ForgeSpec::Quot(0, cell) => quot = Some(cell),
+                    _ => return Err(format!("forgery {id} does not apply to a uni-STARK target")),
+                }
+                let r = catch_unwind(AssertUnwindSafe(|| {
+                    let config = $mk_cfg();
+                    let air = $mk_air;
+                    let log_h = p3_util::log2_strict_usize(trace.height());
+                    let (ppd, vk) = setup_preprocessed(&config, &air, log_h).unzip();
+                    let proof = forge_prove_uni(&config, &air, trace, &pis, ppd.as_ref(), quot);
+                    json!({
+                        "proof": serde_json::to_value(&proof).unwrap(),
+                        "pis": serde_json::to_value(&pis).unwrap(),
+                        "vd": vk.as_ref().map(|v| serde_json::to_value(&v.commitment).unwrap()).unwrap_or(Value::Null),
+                    })
+                }));
+                r.map_err(|p| format!("prover panic: {}", panic_msg(p)))
+            }
+        };
+        let drift = match forge_fn("none") {
+            Ok(j) if j == honest => None,
+            Ok(_) => Some("proof differs from p3_uni_stark::prove_with_preprocessed on the honest witness".to_string()),
+            Err(e) => Some(e),
+        };
+        Target { name, honest, native, build, include: Box::new(|_| true), shape, transcript, pow_bits: (spec.0, spec.1),
+            forge_ids, forge: Some(Box::new(forge_fn)), drift }
     }};
 }
 
@@ -393,6 +444,11 @@ macro_rules! batch_target {
                 pre_next: !<DemoAir as p3_air::BaseAir<F>>::preprocessed_next_row_columns(a).is_empty(),
                 n_lookups: 0,
             })
+            .enumerate()
+            .map(|(i, mut x)| {
+                x.n_lookups = prover_data.common.lookups[i].len();
+                x
+            })
             .collect();
         let sp = ShapeParams { mode: "batch", zk: is_zk, d: 4, dg: DIGEST_ELEMS, nrc: if is_zk { 2 } else { 0 },
             cpow: 1, qpow: 1, log_blowup: 2, log_final: 0 };
@@ -413,7 +469,10 @@ macro_rules! batch_target {
                 let r = catch_unwind(AssertUnwindSafe(|| verify_batch(&config, &airs, &proof, &pvs, &common)));
                 Some(match r {
                     Ok(Ok(())) => Native::Accept,
-                    Ok(Err(e)) => Native::Reject(variant(&format!("{e:?}"))),
+                    Ok(Err(e)) => {
+                        let full: String = format!("{e:?}").chars().take(120).collect();
+                        Native::Reject(format!("{}|{}", variant2(&full), full))
+                    }
                     Err(p) => Native::Panic(panic_msg(p)),
                 })
             })
@@ -483,7 +542,66 @@ macro_rules! batch_target {
                 }) as RunFn)
             })
         };
-        Target { name, honest, native, build, include: Box::new(|_| true), shape, transcript, pow_bits: (1, 1) }
+        // prover-side forgeries: the adversarial prover on altered traces / public values / derived values
+        let n_lk: Vec<usize> = prover_data.common.lookups.iter().map(|l| l.len()).collect();
+        let forge_ids = super::forge_ids(&traces.iter().map(|t| t.values.len()).collect::<Vec<_>>(), &pvs.iter().map(|p| p.len()).collect::<Vec<_>>(), &n_lk);
+        let forge_fn = {
+            let airs = airs.clone();
+            let traces = traces.clone();
+            let pvs = pvs.clone();
+            move |id: &str| -> Result<Value, String> {
+                let spec = super::ForgeSpec::parse(id).ok_or_else(|| format!("bad forgery id {id}"))?;
+                let mut traces = traces.clone();
+                let mut pvs = pvs.clone();
+                let mut fg = Forge::<$SC>::none();
+                match spec {
+                    super::ForgeSpec::None => {}
+                    super::ForgeSpec::Trace(i, cell, delta) => {
+                        let t = traces.get_mut(i).ok_or("instance")?;
+                        let n = t.values.len();
+                        t.values[cell % n] += F::from_u64(delta);
+                    }
+                    super::ForgeSpec::Pv(i, k) => {
+                        let p = pvs.get_mut(i).ok_or("instance")?;
+                        let n = p.len().max(1);
+                        if let Some(x) = p.get_mut(k % n) {
+                            *x += F::ONE;
+                        }
+                    }
+                    super::ForgeSpec::TerminalPair(i, j) => {
+                        fg.terminal_shift = vec![(i, Challenge::ONE), (j, -Challenge::ONE)];
+                    }
+                    super::ForgeSpec::TerminalOne(i) => fg.terminal_shift = vec![(i, Challenge::ONE)],
+                    super::ForgeSpec::Perm(i, cell) => fg.perm_cell = Some((i, cell)),
+                    super::ForgeSpec::Quot(i, cell) => fg.quotient_cell = Some((i, cell)),
+                }
+                let config: $SC = $mk_config(1);
+                let r = catch_unwind(AssertUnwindSafe(|| {
+                    let instances: Vec<StarkInstance<'_, $SC, DemoAir>> = airs
+                        .iter()
+                        .zip(traces.iter())
+                        .zip(pvs.iter())
+                        .map(|((air, trace), pv)| StarkInstance { air, trace, public_values: pv.clone() })
+                        .collect();
+                    let pd = ProverData::<$SC>::from_instances(&config, &instances);
+                    let proof = forge_prove_batch(&config, &instances, &pd, &fg);
+                    json!({
+                        "proof": serde_json::to_value(&proof).unwrap(),
+                        "pis": serde_json::to_value(&pvs).unwrap(),
+                        "vd": pd.common.preprocessed.as_ref().map(|g| serde_json::to_value(&g.commitment).unwrap()).unwrap_or(Value::Null),
+                    })
+                }));
+                r.map_err(|p| format!("prover panic: {}", panic_msg(p)))
+            }
+        };
+        // the adversarial prover with nothing forged must be the stock prover
+        let drift = match forge_fn("none") {
+            Ok(j) if j == honest => None,
+            Ok(_) => Some("proof differs from p3_batch_stark::prove_batch on the honest witness".to_string()),
+            Err(e) => Some(e),
+        };
+        Target { name, honest, native, build, include: Box::new(|_| true), shape, transcript, pow_bits: (1, 1),
+            forge_ids, forge: Some(Box::new(forge_fn)), drift }
     }};
 }
 
@@ -620,6 +738,9 @@ fn tables_target() -> Target {
         shape,
         transcript,
         pow_bits: (1, 1),
+        forge_ids: vec![],
+        forge: None,
+        drift: None,
     }
 }
 
@@ -759,6 +880,104 @@ pub fn targets(out: &mut Vec<(String, Box<dyn Fn() -> Target>)>) {
                 vec![DemoAir::Mul(m)],
                 vec![m.traces::<F>().0],
                 vec![vec![]]
+            )
+        }),
+    ));
+    // batches with LogUp lookups between custom AIRs: every instance has lookups / lookups next to
+    // lookup-free instances (first, last, in between) / different heights / preprocessed columns /
+    // a local lookup / the hiding PCS
+    out.push((
+        format!("batch/{TAG}/bus-all"),
+        Box::new(move || {
+            batch_target!(
+                "bus-all",
+                MyConfig,
+                InnerFri,
+                |_s: u64| make_test_config(),
+                fri_plain,
+                RecConfig,
+                (|l: &EvLog| rec_config(l, false)),
+                vec![DemoAir::Bus { sign: 1, open_next: true }, DemoAir::Bus { sign: -1, open_next: false }],
+                vec![bus_trace::<F>(8, 8, 0), bus_trace::<F>(8, 8, 0)],
+                vec![vec![], vec![]]
+            )
+        }),
+    ));
+    out.push((
+        format!("batch/{TAG}/bus-mixed"),
+        Box::new(move || {
+            batch_target!(
+                "bus-mixed",
+                MyConfig,
+                InnerFri,
+                |_s: u64| make_test_config(),
+                fri_plain,
+                RecConfig,
+                (|l: &EvLog| rec_config(l, false)),
+                vec![
+                    DemoAir::Bus { sign: 1, open_next: true },
+                    DemoAir::Bus { sign: -1, open_next: true },
+                    DemoAir::Add(AddAir { open_next: true })
+                ],
+                vec![bus_trace::<F>(8, 8, 0), bus_trace::<F>(8, 8, 0), add_trace::<F>(8)],
+                vec![vec![], vec![], vec![]]
+            )
+        }),
+    ));
+    out.push((
+        format!("batch/{TAG}/bus-table-pre"),
+        Box::new(move || {
+            // lookup-free instances first and last; sender (8 rows, each of 0..4 twice) and table
+            // (4 rows, multiplicity column) of different heights; public values; preprocessed columns
+            batch_target!(
+                "bus-table-pre",
+                MyConfig,
+                InnerFri,
+                |_s: u64| make_test_config(),
+                fri_plain,
+                RecConfig,
+                (|l: &EvLog| rec_config(l, false)),
+                vec![DemoAir::Fib, DemoAir::Bus { sign: 1, open_next: false }, DemoAir::Table, DemoAir::Mul(mul)],
+                vec![generate_trace_rows::<F>(0, 1, 4), bus_trace::<F>(8, 4, 0), table_trace::<F>(4, 2), mul.traces::<F>().0],
+                vec![vec![F::ZERO, F::ONE, F::from_u64(3)], vec![], vec![], vec![]]
+            )
+        }),
+    ));
+    out.push((
+        format!("batch/{TAG}/perm-mixed"),
+        Box::new(move || {
+            batch_target!(
+                "perm-mixed",
+                MyConfig,
+                InnerFri,
+                |_s: u64| make_test_config(),
+                fri_plain,
+                RecConfig,
+                (|l: &EvLog| rec_config(l, false)),
+                vec![DemoAir::Add(AddAir { open_next: false }), DemoAir::Perm],
+                vec![add_trace::<F>(4), perm_trace::<F>(8)],
+                vec![vec![], vec![]]
+            )
+        }),
+    ));
+    out.push((
+        format!("batchzk/{TAG}/bus-mixed"),
+        Box::new(move || {
+            batch_target!(
+                "bus-mixed",
+                MyConfigZk,
+                InnerFriZk,
+                make_zk_config,
+                fri_zk,
+                RecConfigZk,
+                rec_config_zk,
+                vec![
+                    DemoAir::Add(AddAir { open_next: false }),
+                    DemoAir::Bus { sign: 1, open_next: true },
+                    DemoAir::Bus { sign: -1, open_next: true }
+                ],
+                vec![add_trace::<F>(4), bus_trace::<F>(8, 8, 0), bus_trace::<F>(8, 8, 0)],
+                vec![vec![], vec![], vec![]]
             )
         }),
     ));
